@@ -5,7 +5,8 @@
    `run (init_state g) ops` is the state after Visor.Init with genesis block g
    followed by ANY list of submitted signed blocks (accepted or not). *)
 From Sky Require Import Base.Uint Gen.Mathutil Model.Ledger Model.LedgerSpec Model.LedgerObs
-  Proofs.LedgerBasics Proofs.LedgerProofs Proofs.LedgerSupply Proofs.LedgerPremises Proofs.LedgerExample.
+  Proofs.LedgerBasics Proofs.LedgerProofs Proofs.LedgerSupply Proofs.LedgerArb Proofs.LedgerArbSupply
+  Proofs.LedgerPremises Proofs.LedgerExample.
 Open Scope Z_scope.
 
 (* the sum, in Z, of the unspent coins equals the genesis volume after every history *)
@@ -48,6 +49,34 @@ Theorem C01_reject_noop : forall s b s' o, exec_block s b = (s', o) -> o <> Acce
 Proof. exact exec_reject_noop. Qed.
 Print Assumptions C01_reject_noop.
 
+(* ---- the same on an ARBITRATING node (block publisher configuration), where
+   processTransactions sorts the offered transactions and silently drops the
+   invalid / conflicting ones: `run_arb` executes the ops with exec_block_arb *)
+Theorem C01_supply_conserved_arb : forall g ops, genesis_wf g -> ops_in_range ops ->
+  sumZ (map u_coins (utxo (run_arb (init_state g) ops))) = genesis_volume g.
+Proof. exact supply_conserved_arb. Qed.
+Print Assumptions C01_supply_conserved_arb.
+
+(* the block an arbitrating node stores has the offered header and a body that
+   is part of the offered body, all of whose transactions are balanced *)
+Theorem C01_kept_balanced_arb : forall g ops b s', genesis_wf g -> ops_in_range ops -> block_in_range b ->
+  step_arb (run_arb (init_state g) ops) (ExecBlock b) = (s', Accepted) ->
+  exists stored, chain s' = stored :: chain (run_arb (init_state g) ops) /\
+    b_head stored = b_head b /\ b_hash stored = b_hash b /\ incl (b_txns stored) (b_txns b) /\
+    Forall (fun t => exists uxin,
+              get_array (t_ins t) (utxo (run_arb (init_state g) ops)) = Some uxin /\
+              sumZ (map u_coins uxin) = sumZ (map o_coins (t_outs t)) /\
+              0 <= sumZ (map u_coins uxin) < 2 ^ 64) (b_txns stored).
+Proof. exact kept_balanced_arb. Qed.
+Print Assumptions C01_kept_balanced_arb.
+
+(* whatever list of transactions it is offered, arbitrating processTransactions
+   keeps a sub-list that satisfies what the unspent-set update needs *)
+Theorem C01_arbitration_ok : forall pool head ts l, process_txns_arb pool head ts = ArbOk l ->
+  txns_ok pool head l /\ incl l ts.
+Proof. exact process_txns_arb_ok. Qed.
+Print Assumptions C01_arbitration_ok.
+
 (* the boolean premises evaluated on every generated history imply the premises above *)
 Theorem C01_premises_checked : forall h, premises_b h = true ->
   genesis_wf (hi_genesis h) /\ ops_in_range (hist_ops h) /\
@@ -63,3 +92,13 @@ Example C01_example :
   sumZ (map u_coins (utxo (run (init_state ex_g) ex_ops))) = 1000.
 Proof. split; [exact ex_premises|]. vm_compute. split; reflexivity. Qed.
 Print Assumptions C01_example.
+
+(* non-vacuity, arbitrating: offered a signed block with a good transaction and
+   one creating 50 coins, the node keeps the good one only; supply stays 1000 *)
+Example C01_example_arb :
+  (genesis_wf ex_g /\ ops_in_range ex_ops_arb /\ ids_consistent ex_g (ops_txns ex_ops_arb)) /\
+  snd (step_arb (run_arb (init_state ex_g) [ExecBlock ex_b1]) (ExecBlock ex_b4)) = Accepted /\
+  map (fun b => map t_hash (b_txns b)) (chain (run_arb (init_state ex_g) ex_ops_arb)) = [[37]; [6]; [2]] /\
+  sumZ (map u_coins (utxo (run_arb (init_state ex_g) ex_ops_arb))) = 1000.
+Proof. split; [exact ex_premises_arb|]. vm_compute. repeat split. Qed.
+Print Assumptions C01_example_arb.
